@@ -225,10 +225,14 @@ fn main() -> Result<()> {
 
     // verification hook (off unless built with --cfg maidsafe_safe_network_verif): print the parsed
     // options and exit, so that the arguments antctl writes can be checked against this parser
+    // With VERIF_DUMP_OPT=effects the start-up continues up to the first bootstrap-cache flush (root
+    // directory and key, logging, cache store -- no networking yet) and exits at the second hook below.
     #[cfg(maidsafe_safe_network_verif)]
-    if env::var_os("VERIF_DUMP_OPT").is_some() {
+    if let Some(mode) = env::var_os("VERIF_DUMP_OPT") {
         println!("{opt:#?}");
-        return Ok(());
+        if mode != "effects" {
+            return Ok(());
+        }
     }
 
     if let Some(network_id) = opt.network_id {
@@ -292,6 +296,14 @@ fn main() -> Result<()> {
     )?;
     // To create the file before startup if it doesn't exist.
     bootstrap_cache.sync_and_flush_to_disk(true)?;
+
+    // verification hook, second half: the start-up effects are on disk now; report and stop
+    #[cfg(maidsafe_safe_network_verif)]
+    if env::var_os("VERIF_DUMP_OPT").is_some_and(|mode| mode == "effects") {
+        info!("verification run: stopping after the start-up effects");
+        println!("VERIF_EFFECTS root_dir={root_dir:?} log_output_dest={log_output_dest:?}");
+        return Ok(());
+    }
 
     let msg = format!(
         "Running {} v{}",
